@@ -86,7 +86,9 @@ def make_chooser(seed, ctx):
                 if dist < 1e-4 and p[item["idx"]] > 1e-12:
                     # the leader's draw of the same length that was not a point mass comes first: a
                     # weakly populated outcome (1e-5) is within 1e-4 of a point-mass draw of the partner
-                    rank = (len(q) != n, float(q.max()) > 1 - 1e-9, dist)
+                    # (ties - two members in the same state - go to the earlier draw: the distance only
+                    # separates "the same distribution" from "merely close", rounding noise must not reorder)
+                    rank = (len(q) != n, float(q.max()) > 1 - 1e-9, dist > 1e-7)
                     if best is None or rank < best[0]:
                         best = (rank, item)
             if best is not None:
